@@ -120,16 +120,21 @@ func (fs *FieldStore) classify(fb *FB, st *ssa.Store) {
 	case d.isConst() && d.C < 0:
 		fs.Class = "-c"
 		fs.Sym = fmt.Sprint(-d.C)
-	case d.C == 0 && len(d.T) == 1:
+	case len(d.T) == 1:
+		// old value plus/minus one symbolic amount (possibly with a constant part, e.g. 16 + alignTo8(n))
 		for k, coef := range d.T {
-			fs.SymK = k
-			fs.Sym = fb.symName(k)
+			fs.Class = "="
 			if coef == 1 {
 				fs.Class = "+x"
+				fs.Sym = fb.linString(d)
 			} else if coef == -1 {
 				fs.Class = "-x"
+				fs.Sym = fb.linString(d.scale(-1))
+			}
+			if d.C == 0 {
+				fs.SymK = k
 			} else {
-				fs.Class = "="
+				fs.SymK = fs.Sym // amounts with a constant part are compared by their rendering
 			}
 		}
 	default:
